@@ -1,47 +1,22 @@
 (* C10 — self-test follows the datasheet procedure, judges correctly, restores the configuration.
-   (shape)   perform_self_test is, by conversion, exactly: save the shadow; set-up; delay 2; 0x7D <- 0x07; delay 50;
-             one 6-byte read from 0x04; 0x7D <- 0x0F; delay 50; one 6-byte read from 0x04; differences; 0x7D <- 0x00;
-             delay 50; clean-up from the saved shadow; verdict.  Hence for every world, transport and fault plan the
-             excitation writes are 0x07, 0x0F, 0x00 in this order, each data read follows its excitation write after
-             a 50 ms delay request with no other bus traffic in between, and nothing else touches 0x7D.
-   (set-up)  from every shadow: INT_CONFIG0 <- 0, INT_CONFIG1 <- 0, AUTOWAKEUP_1 with the wake-up interrupt bit
-             cleared, FIFO_CONFIG0 with the three axis bits cleared, ACC_CONFIG0 with power mode normal and its other
-             bits unchanged, ACC_CONFIG1 <- 0x78 (4 g, OSR3, 100 Hz); the interrupts are switched off BEFORE the ODR
-             changes (C06 during the procedure); six mirrored writes, nothing else.
-   (clean-up) writes the saved values of exactly those six registers back (ODR before the enables) and the shadow's
-             six registers equal the saved ones again.
-   (verdict) for all twelve response bytes: no i16 overflow in the differences; Ok iff dx > 1500, dy > 1200, dz > 250.
-   (restore) end to end: whenever the procedure runs to its verdict (Ok or SelfTestFailedError) over the register-level
-             transport, under any fault plan that lets it get there, the shadow afterwards IS the shadow before, and (C16)
+   (run)     c10_run: on the register-level semantics, for every shadow made of bytes, every chip and every pair of recorded responses
+             the chip serves under positive / negative excitation, the call performs EXACTLY the events `st_events d` in that order -
+             interrupts off, auto-wake-up interrupt off, FIFO axis capture off, normal mode with the other bits kept, ACC_CONFIG1 <- 0x78
+             (4 g, OSR3, 100 Hz), delay 2, 0x7D <- 0x07, delay 50, one 6-byte read at 0x04, 0x7D <- 0x0F, delay 50, one 6-byte read,
+             0x7D <- 0x00, delay 50, the six saved values written back (accelerometer configuration before the enables) - returns Ok
+             exactly when the differences of the decoded 12-bit samples exceed 1500 / 1200 / 250 and SelfTestFailedError otherwise, and
+             leaves the shadow as it was.  The proof evaluates `sem` through the generated body by rewriting (bind, write, delay, read
+             of the data registers by C03, no-overflow of the differences), whatever order the body's pure computations are in.
+   (restore) end to end under any fault plan that lets the call reach its verdict: the shadow afterwards IS the shadow before, and (C16)
              every shadowed register of the device holds the value it held before (c10_restores).
-   Coherence of the shadow with the device through the whole procedure, including aborted runs, is C16; the ODR rules
-   through the whole procedure are C06. *)
+   Coherence of the shadow with the device through the whole procedure, including aborted runs, is C16; the ODR rules through the whole
+   procedure are C06. *)
 Require Import BMA.lib.Base BMA.lib.Reflect BMA.gen.GenTypes BMA.gen.GenPure BMA.lib.Prog BMA.gen.GenProg BMA.gen.GenMeta
                BMA.lib.Encode BMA.gen.GenApi BMA.gen.GenLens BMA.lib.Run BMA.lib.Driver BMA.proofs.Generic BMA.proofs.Rules BMA.proofs.Coherent
                BMA.proofs.Symex BMA.proofs.BuilderSpec BMA.proofs.Builders BMA.proofs.OdrInv BMA.proofs.OdrOps BMA.spec.Datasheet.
 Require Import BMA.props.C03.
 From Coq Require Import Lia.
 Open Scope N_scope.
-
-(* ---- shape ---- *)
-Definition after_reads (saved : Config) (pos neg : Measurement) : prog unit :=
-  x <- lift_res (isub_chk 16 (Measurement_x pos) (Measurement_x neg)) ;;
-  y <- lift_res (isub_chk 16 (Measurement_y pos) (Measurement_y neg)) ;;
-  z <- lift_res (isub_chk 16 (Measurement_z pos) (Measurement_z neg)) ;;
-  Write ds_SelfTest_addr 0 (Delay 50 (Get (fun _ =>
-    _ <- Config_cleanup_self_test saved ;;
-    if (Z.ltb 1500 x && Z.ltb 1200 y && Z.ltb 250 z)%bool then Ret tt else Fail BMA400Error_SelfTestFailedError))).
-
-Theorem c10_shape :
-  BMA400_perform_self_test =
-  Get (fun saved => Get (fun _ =>
-    _ <- Config_setup_self_test ;;
-    Delay 2 (Write ds_SelfTest_addr 7 (Delay 50 (
-    pos <- BMA400_get_unscaled_data ;;
-    Write ds_SelfTest_addr 15 (Delay 50 (
-    neg <- BMA400_get_unscaled_data ;;
-    after_reads saved pos neg))))))).
-Proof. reflexivity. Qed.
 
 (* ---- verdict arithmetic on the decoded samples ---- *)
 Theorem c10_no_overflow : forall a b, (-2048 <= a <= 2047)%Z -> (-2048 <= b <= 2047)%Z -> isub_chk 16 a b = Ok (a - b)%Z.
@@ -52,55 +27,99 @@ Proof.
   exfalso. apply andb_false_iff in E. destruct E as [E|E]; [apply Z.leb_gt in E | apply Z.ltb_ge in E]; lia.
 Qed.
 
-(* ---- set-up and clean-up: symbolic execution of the generated bodies ---- *)
-Definition six (d : Config) : list N := [shv d 31; shv d 32; shv d 45; shv d 38; shv d 25; shv d 26].
+(* ---- the whole procedure on the register-level semantics ---- *)
+Lemma sem_write : forall a v d c evs, sem (write_register a v) d c evs = ADone tt d (chip_write a v c) (evs ++ [EvWrite a v]). Proof. reflexivity. Qed.
+Lemma sem_delay : forall ms d c evs, sem (delay_ms ms) d c evs = ADone tt d c (evs ++ [EvDelay ms]). Proof. reflexivity. Qed.
+Lemma sem_get : forall d c evs, sem get_shadow d c evs = ADone d d c evs. Proof. reflexivity. Qed.
+Lemma sem_modify : forall f d c evs, sem (modify f) d c evs = ADone tt (f d) c evs. Proof. reflexivity. Qed.
+Lemma sem_lift_ok : forall A (a : A) d c evs, sem (lift_res (Ok a)) d c evs = ADone a d c evs. Proof. reflexivity. Qed.
+Lemma sem_ret : forall A (a : A) d c evs, sem (Ret a) d c evs = ADone a d c evs. Proof. reflexivity. Qed.
+Lemma sem_fail : forall A e d c evs, @sem A (Fail e) d c evs = AFailed e d c evs. Proof. reflexivity. Qed.
 
-Theorem c10_setup : forall d g j, wfb d = true ->
-  postx Config_setup_self_test d g j
-    (fun _ d' _ j' =>
-       exists nj, j' = j ++ nj /\ map jw_addr nj = [31; 32; 45; 38; 25; 26]
-       /\ map jw_val nj = six d'
-       /\ shv d' 31 = 0 /\ shv d' 32 = 0
-       /\ N.land (shv d' 45) 2 = 0 /\ N.ldiff (shv d' 45) 2 = N.ldiff (shv d 45) 2
-       /\ N.land (shv d' 38) 224 = 0 /\ N.ldiff (shv d' 38) 224 = N.ldiff (shv d 38) 224
-       /\ N.land (shv d' 25) 3 = 2 /\ N.ldiff (shv d' 25) 3 = N.ldiff (shv d 25) 3
-       /\ shv d' 26 = 120)
-    (fun _ _ _ _ => False).
+(* what the chip serves while the excitation register holds 0x07 / 0x0F *)
+Lemma read_pos : forall c p0 p1 p2 p3 p4 p5, regs c 125 = 7 -> st_pos c = [p0; p1; p2; p3; p4; p5] ->
+  chip_read ds_AccXLSB_addr 6 c = ([p0; p1; p2; p3; p4; p5], c).
+Proof. intros c p0 p1 p2 p3 p4 p5 H S. unfold chip_read, ds_AccXLSB_addr. cbn [N.eqb Pos.eqb]. change (N.eqb 4 20) with false. cbv iota.
+  unfold read_seq. change (N.to_nat 6) with 6%nat. cbv beta iota. unfold reg_out. rewrite H, S. vm_compute. reflexivity. Qed.
+Lemma read_neg : forall c p0 p1 p2 p3 p4 p5, regs c 125 = 15 -> st_neg c = [p0; p1; p2; p3; p4; p5] ->
+  chip_read ds_AccXLSB_addr 6 c = ([p0; p1; p2; p3; p4; p5], c).
+Proof. intros c p0 p1 p2 p3 p4 p5 H S. unfold chip_read, ds_AccXLSB_addr. change (N.eqb 4 20) with false. cbv iota.
+  unfold read_seq. change (N.to_nat 6) with 6%nat. cbv beta iota. unfold reg_out. rewrite H, S. vm_compute. reflexivity. Qed.
+
+Lemma sext12_range : forall l m, l < 256 -> m < 256 -> (-2048 <= sext12 l m <= 2047)%Z.
+Proof. intros l m H0 H1. pose proof (c03_sample_range l m H0 H1) as R. apply andb_prop in R. destruct R as [R1 R2]. apply Z.leb_le in R1. apply Z.leb_le in R2. lia. Qed.
+
+(* one step of evaluating `sem` through a body, whatever the order of its statements *)
+Ltac sev_step :=
+  first
+  [ rewrite sem_bind
+  | rewrite sem_write | rewrite sem_delay | rewrite sem_get | rewrite sem_modify | rewrite sem_lift_ok | rewrite sem_ret | rewrite sem_fail
+  | progress cbv beta iota zeta
+  | progress (unfold_cfg_fns; cbv_records)
+  | progress (unfold BMA400_perform_self_test, Config_setup_self_test, Config_cleanup_self_test) ].
+(* the data read while the excitation register holds k: the chip serves the recorded response *)
+Ltac read_step Sp Sn P0 P1 P2 P3 P4 P5 N0 N1 N2 N3 N4 N5 :=
+  lazymatch goal with |- context [sem BMA400_get_unscaled_data ?d1 ?c1 ?e1] =>
+    first
+    [ let R := fresh "R" in
+      assert (R : chip_read ds_AccXLSB_addr 6 c1 = (_, c1)) by (apply read_pos; [vm_compute; reflexivity | transitivity (st_pos c1); [reflexivity | etransitivity; [ | exact Sp]; vm_compute; reflexivity]]);
+      erewrite (c03_unscaled d1 c1 e1) by (first [ rewrite R; reflexivity | assumption ]); rewrite R; cbn [snd]; clear R
+    | let R := fresh "R" in
+      assert (R : chip_read ds_AccXLSB_addr 6 c1 = (_, c1)) by (apply read_neg; [vm_compute; reflexivity | etransitivity; [ | exact Sn]; vm_compute; reflexivity]);
+      erewrite (c03_unscaled d1 c1 e1) by (first [ rewrite R; reflexivity | assumption ]); rewrite R; cbn [snd]; clear R ]
+  end.
+
+(* ---- the whole procedure on the register-level semantics ---- *)
+Definition apply_evs (c : chip) (l : list event) : chip :=
+  fold_left (fun c e => match e with EvWrite a v => chip_write a v c | _ => c end) l c.
+(* datasheet side: what the procedure sends, in order *)
+Definition st_events (d : Config) : list event :=
+  [ EvWrite 31 0; EvWrite 32 0;                         (* interrupts off *)
+    EvWrite 45 (N.ldiff (shv d 45) 2);                   (* wake-up interrupt of the auto-wake-up block off *)
+    EvWrite 38 (N.ldiff (shv d 38) 224);                 (* FIFO axis capture off *)
+    EvWrite 25 (N.lor (N.ldiff (shv d 25) 3) 2);         (* normal mode, other bits kept *)
+    EvWrite 26 120;                                      (* 4 g, OSR3, 100 Hz *)
+    EvDelay 2;
+    EvWrite 125 7; EvDelay 50; EvRead 4 6;               (* positive excitation on all axes, settle, one burst read *)
+    EvWrite 125 15; EvDelay 50; EvRead 4 6;              (* negative excitation, settle, one burst read *)
+    EvWrite 125 0; EvDelay 50;                           (* excitation off *)
+    EvWrite 25 (shv d 25); EvWrite 26 (shv d 26);        (* restore: accelerometer configuration first *)
+    EvWrite 31 (shv d 31); EvWrite 32 (shv d 32); EvWrite 45 (shv d 45); EvWrite 38 (shv d 38) ].
+Definition st_pass (p0 p1 p2 p3 p4 p5 n0 n1 n2 n3 n4 n5 : N) : bool :=
+  (Z.ltb 1500 (sext12 p0 p1 - sext12 n0 n1) && Z.ltb 1200 (sext12 p2 p3 - sext12 n2 n3) && Z.ltb 250 (sext12 p4 p5 - sext12 n4 n5))%bool.
+
+Theorem c10_run : forall d c evs p0 p1 p2 p3 p4 p5 n0 n1 n2 n3 n4 n5, wfb d = true ->
+  p0 < 256 -> p1 < 256 -> p2 < 256 -> p3 < 256 -> p4 < 256 -> p5 < 256 ->
+  n0 < 256 -> n1 < 256 -> n2 < 256 -> n3 < 256 -> n4 < 256 -> n5 < 256 ->
+  st_pos c = [p0; p1; p2; p3; p4; p5] -> st_neg c = [n0; n1; n2; n3; n4; n5] ->
+  sem BMA400_perform_self_test d c evs =
+    if st_pass p0 p1 p2 p3 p4 p5 n0 n1 n2 n3 n4 n5
+    then ADone tt d (apply_evs c (st_events d)) (evs ++ st_events d)
+    else AFailed BMA400Error_SelfTestFailedError d (apply_evs c (st_events d)) (evs ++ st_events d).
 Proof.
-  intros d g j Hwf. destruct_cfg d. wf_facts Hwf. destruct g as [g0 g1 g2].
-  cbv delta [Config_setup_self_test]; cbv beta. timeout 300 (sx; subst_eqs; cbn).
-  eexists. rewrite <- !app_assoc. split; [reflexivity|]. cbn [map jw_addr jw_val app]. eval_shv.
-  repeat split; try reflexivity; try (clear_unused; finite_reflect).
+  intros d c evs p0 p1 p2 p3 p4 p5 n0 n1 n2 n3 n4 n5 Hwf P0 P1 P2 P3 P4 P5 N0 N1 N2 N3 N4 N5 Sp Sn.
+  destruct_cfg d. wf_facts Hwf.
+  assert (V45 : AutoWakeup1_with_wakeup_int s_auto_wkup_config_auto_wakeup1 false = N.ldiff s_auto_wkup_config_auto_wakeup1 2) by (clear_unused; finite_reflect).
+  assert (V38 : FifoConfig0_with_fifo_z (FifoConfig0_with_fifo_y (FifoConfig0_with_fifo_x s_fifo_config_fifo_config0 false) false) false
+                = N.ldiff s_fifo_config_fifo_config0 224) by (clear_unused; finite_reflect).
+  assert (V25 : AccConfig0_with_power_mode s_acc_config_acc_config0 PowerMode_Normal = N.lor (N.ldiff s_acc_config_acc_config0 3) 2) by (clear_unused; finite_reflect).
+  timeout 600 (repeat first [ sev_step | read_step Sp Sn P0 P1 P2 P3 P4 P5 N0 N1 N2 N3 N4 N5
+                            | rewrite c10_no_overflow by (apply sext12_range; assumption) ]).
+  unfold st_pass.
+  match goal with |- context [if ?b then Ret tt else _] => destruct b end; rewrite ?sem_ret, ?sem_fail;
+    unfold st_events, apply_evs; eval_shv; cbn [fold_left]; rewrite ?V45, ?V38, ?V25; rewrite <- ?app_assoc; cbn [app]; timeout 120 reflexivity.
 Qed.
 
-Theorem c10_cleanup : forall saved d g j,
-  postx (Config_cleanup_self_test saved) d g j
-    (fun _ d' _ j' =>
-       exists nj, j' = j ++ nj /\ map jw_addr nj = [25; 26; 31; 32; 45; 38]
-       /\ map jw_val nj = [shv saved 25; shv saved 26; shv saved 31; shv saved 32; shv saved 45; shv saved 38]
-       /\ six d' = six saved)
-    (fun _ _ _ _ => False).
-Proof.
-  intros saved d g j. destruct_cfg d. destruct g as [g0 g1 g2].
-  cbv delta [Config_cleanup_self_test]; cbv beta. timeout 300 (sx; cbn).
-  eexists. rewrite <- !app_assoc. split; [reflexivity|]. cbn [map jw_addr jw_val app].
-  destruct saved as [[a0 a1 a2] [i0 i1] [p0 p1 p2 p3] [f0 f1 f2 f3] [l0 l1] [w0 w1] [k0 k1 k2 k3 k4] [o0 o1 o3 o4 o5 o6 o7 o8 o9]
-                      [x0 x1 x2 x3 x31 x4 x5 x6 x7 x8 x9] [y0 y1 y2 y3 y31 y4 y5 y6 y7 y8 y9] [c0 c1] [t0 t1]].
-  unfold six. eval_shv. cbn. repeat split; try reflexivity.
-Qed.
-
-(* the verdict on the decoded samples of C03: no overflow, Ok exactly when the three differences exceed the thresholds *)
-Theorem c10_verdict : forall saved px py pz nx ny nz,
-  (-2048 <= px <= 2047)%Z -> (-2048 <= py <= 2047)%Z -> (-2048 <= pz <= 2047)%Z ->
-  (-2048 <= nx <= 2047)%Z -> (-2048 <= ny <= 2047)%Z -> (-2048 <= nz <= 2047)%Z ->
-  after_reads saved (mk_Measurement px py pz) (mk_Measurement nx ny nz) =
-  Write ds_SelfTest_addr 0 (Delay 50 (Get (fun _ =>
-    _ <- Config_cleanup_self_test saved ;;
-    if (Z.ltb 1500 (px - nx) && Z.ltb 1200 (py - ny) && Z.ltb 250 (pz - nz))%bool then Ret tt else Fail BMA400Error_SelfTestFailedError))).
-Proof.
-  intros saved px py pz nx ny nz H1 H2 H3 H4 H5 H6. unfold after_reads. cbn [Measurement_x Measurement_y Measurement_z].
-  rewrite !c10_no_overflow by assumption. reflexivity.
-Qed.
+(* every data read follows an excitation write after at least 50 ms of delay requests with no other bus traffic in between *)
+Fixpoint settle_ok (l : list event) (since : option N) : bool :=
+  match l with
+  | [] => true
+  | EvWrite a _ :: r => settle_ok r (if N.eqb a 125 then Some 0 else None)
+  | EvDelay ms :: r => settle_ok r (match since with Some t => Some (t + ms) | None => None end)
+  | EvRead _ _ :: r => match since with Some t => N.leb 50 t && settle_ok r None | None => false end
+  end.
+Theorem c10_settled : forall d, settle_ok (st_events d) None = true.
+Proof. intro d. reflexivity. Qed.
 
 (* ---- end to end: the configuration is restored ---- *)
 Theorem c10_restores_shadow : forall d, ov d = true ->
